@@ -1004,4 +1004,43 @@ theorem cryptoExtra_repr (name : String) (f : OpFn) (h : cryptoExtra name = some
       | some g => rw [hc] at h; cases h; exact liftCrypto_repr g
 
 
+/-! ### non-vacuity and the machine-level witness of the defect -/
+
+/-- `(substr (q . 0x0080) (q . 0) (q . 1))` with the quoted source atom inline / on the heap -/
+def substrProg (inl : Bool) : Val :=
+  .pair (.atom [12] true)
+    (.pair (.pair (.atom [1] true) (.atom [0x00, 0x80] inl))
+      (.pair (.pair (.atom [1] true) (.atom [] true))
+        (.pair (.pair (.atom [1] true) (.atom [1] true)) Val.nil)))
+
+/-- `(concat (q . 1) (q . 2))` with two different taggings -/
+def concatProg (inl : Bool) : Val :=
+  .pair (.atom [14] true)
+    (.pair (.pair (.atom [1] inl) (.atom [1] true))
+      (.pair (.pair (.atom [1] true) (.atom [2] inl)) Val.nil))
+
+-- the hypotheses of `eval_retag_chia_partial` are satisfiable (both guarded runs answer) …
+example : (concatProg true).wf = true ∧ (concatProg false).wf = true ∧
+    (concatProg true).erase = (concatProg false).erase := by decide
+example : (runProgram {} ((chiaDialect {} (fun _ => none) 0).guard substrGuard) 20 (Ctr.new 1000)
+    (concatProg true) Val.nil 0).isSome = true := by rfl
+example : (runProgram {} ((chiaDialect {} (fun _ => none) 0).guard substrGuard) 20 (Ctr.new 1000)
+    (concatProg false) Val.nil 0).isSome = true := by rfl
+-- … and the guard fires exactly in the run that takes the heap-growing branch of `new_substr`
+example : runProgram {} ((chiaDialect {} (fun _ => none) 0).guard substrGuard) 20 (Ctr.new 1000)
+    (substrProg true) Val.nil 0 = none := by rfl
+example : (runProgram {} ((chiaDialect {} (fun _ => none) 0).guard substrGuard) 20 (Ctr.new 1000)
+    (substrProg false) Val.nil 0).isSome = true := by rfl
+
+/-- DESIGN §6-C at the level of whole runs: without the guard the two runs of
+`(substr (q . 0x0080) (q . 0) (q . 1))` agree on cost, value and counts but not on the heap size -/
+theorem eval_retag_heap_witness :
+    (substrProg true).wf = true ∧ (substrProg false).wf = true ∧
+    (substrProg true).erase = (substrProg false).erase ∧
+    runProgram {} (chiaDialect {} (fun _ => none) 0) 20 (Ctr.new 1000) (substrProg true) Val.nil 0 =
+      some (.ok (62, .atom [0] false, { atoms := 4, pairs := 3, heap := 2, heapLimit := 1000 })) ∧
+    runProgram {} (chiaDialect {} (fun _ => none) 0) 20 (Ctr.new 1000) (substrProg false) Val.nil 0 =
+      some (.ok (62, .atom [0] false, { atoms := 4, pairs := 3, heap := 1, heapLimit := 1000 })) :=
+  ⟨by decide, by decide, by decide, by rfl, by rfl⟩
+
 end Clvm.Interp
